@@ -21,11 +21,12 @@ var strPool = []string{"", "a", "b", "ab", "abc", "abcd", "hello", "é", "日本
 var keyPool = []string{"k", "user", "email", "a", "key2", "é", "token", "", "K", "nested", "list"}
 
 type g struct {
-	t    *rapid.T
-	own  []string
-	list []string
-	rec  *kit.Recorder
+	t     *rapid.T
+	own   []string
+	list  []string
+	rec   *kit.Recorder
 	chain int // deep chains built
+	long  int // long strings built (at most two per case: they are expensive)
 }
 
 // Known finding list-mode-key-collision (known_findings.txt): in
@@ -58,7 +59,19 @@ func (x *g) avoidKnown(k string) string {
 	return k
 }
 
+var longLens = []int{131072, 65536, 65535, 65537, 196608, 131071, 256, 255, 257, 131073, 1 << 18}
+
 func (x *g) str() string {
+	if x.long < 2 && x.pct("longstr", 1) {
+		// lengths around the powers of two a length field or a block size
+		// would have (seeded change C17g: values processed in 64 KiB blocks);
+		// two such strings differ in their last byte only
+		x.long++
+		n := rapid.SampledFrom(longLens).Draw(x.t, "longlen")
+		b := []byte(strings.Repeat("x", n))
+		b[n-1] = byte('a' + rapid.IntRange(0, 3).Draw(x.t, "longlast"))
+		return string(b)
+	}
 	switch rapid.IntRange(0, 5).Draw(x.t, "strk") {
 	case 0, 1, 2:
 		return rapid.SampledFrom(strPool).Draw(x.t, "pool")
@@ -330,6 +343,9 @@ func genCase(t *rapid.T, rec *kit.Recorder) *Case {
 			b, _ = (&pmetric.ProtoMarshaler{}).MarshalMetrics(x.metrics())
 		}
 		c.Docs = append(c.Docs, b)
+	}
+	if x.long > 0 && rec != nil {
+		rec.Label("gen:string_of_255_to_262144_bytes", 1)
 	}
 	if x.chain > 0 && rec != nil {
 		rec.Label("gen:value_nested_9_to_300_levels_deep", 1)
